@@ -120,6 +120,8 @@ def check_run(job, sent_index, result, eps=1e-4):
     if len(trees) == 1 and trees[0]['placeholder']:
         if strong and not ran_out and not too_long:
             bad.append('C01.failed-although-derivation-exists' if (pruning >= T and not use_beta) else 'C16.failed-although-derivation-in-beam')
+            if cfg.get('nbest', 1) > 1 and pruning >= T and not use_beta:
+                bad.append('C10.failed-although-derivations-exist')       # asked for k parses, min(k, #derivations) >= 1 are due
         if trees[0]['leaf_cat'] != 'NP':
             bad.append('C02.placeholder-malformed')
         return bad
